@@ -211,7 +211,11 @@ class EndpointVisitor(Visitor[IROperation, str]):
         # Class definition - implements Protocol
         writer.write_line(f"class {class_name}({protocol_name}):")
         writer.indent()
-        writer.write_line(f'"""Client for {tag} endpoints. Uses HttpTransport for all HTTP and header management."""')
+        # The tag is spec text: keep it inert inside the class docstring
+        safe_tag = tag.replace("\\", "\\\\").replace('"', '\\"').replace("\x00", " ")
+        writer.write_line(
+            f'"""Client for {safe_tag} endpoints. Uses HttpTransport for all HTTP and header management."""'
+        )
         writer.write_line("")
 
         writer.write_line("def __init__(self, transport: HttpTransport, base_url: str) -> None:")
